@@ -112,13 +112,55 @@ def probe_instance(rec, t, ti, source):
     return fn
 
 
+FORMS = ["list", "tuple", "generator", "list-or-bytearray", "read-only-view", "range-or-deque", "array.array-or-dict-values"]
+
+
+def runs(obj, it):
+    """A copy of the value whose integer arrays are runs of consecutive numbers (what one would pass as a range)."""
+    import copy
+
+    from vf.ref import numbers
+    from vf.ref.interp import Obj
+
+    obj = copy.deepcopy(obj)
+
+    def visit(o):
+        body, _c, _i = it.body_of(tuple(o.cls))
+
+        def walk(b):
+            for ins in b:
+                if ins.kind == "chunked":
+                    walk(ins.body)
+                elif ins.kind == "array" and isinstance(o.fields.get(ins.name), list):
+                    t = it.resolve(ins.type)
+                    v = o.fields[ins.name]
+                    if t.kind == "int" and v and all(type(x) is int for x in v):
+                        lim = numbers.LIMIT[t.wire]
+                        first = max(0, min(v[0], lim - len(v)))
+                        if first + len(v) <= lim:
+                            o.fields[ins.name] = [first + k for k in range(len(v))]
+                    for el in v:
+                        if isinstance(el, Obj):
+                            visit(el)
+                elif ins.kind == "field" and isinstance(o.fields.get(ins.name), Obj):
+                    visit(o.fields[ins.name])
+                elif ins.kind == "switch" and isinstance(o.fields.get(ins.field + "_data"), Obj):
+                    visit(o.fields[ins.field + "_data"])
+        walk(body)
+    visit(obj)
+    return obj
+
+
 def one(rec, t, ti, name, obj, j, rng):
     it, br = t.interp, t.bridge
     C = br.real_class(obj.cls)
     case = {"tree": ti, "class": name, "value": obj.to_json()}
     rec.case((ti, name, repr(obj), "constructed"), nontrivial=bool(obj.fields))
     handles = []
-    form = j % 5
+    form = j % 7
+    if form == 5:
+        obj = runs(obj, it)
+        case = {"tree": ti, "class": name, "value": obj.to_json()}
     try:
         inst = br.build(obj, array_form=form, handles=handles if form in (0, 3, 4) else None)
     except Exception as e:
@@ -131,7 +173,7 @@ def one(rec, t, ti, name, obj, j, rng):
             v = getattr(inst, pname)
             if not isinstance(v, tuple):
                 case["xml"] = t.files
-                rec.violation("array-not-tuple", "tree %d %s.%s is %s, not tuple (built from %s)" % (ti, name, pname, type(v).__name__, ["list", "tuple", "generator", "list-or-bytearray", "read-only-view"][form]), case)
+                rec.violation("array-not-tuple", "tree %d %s.%s is %s, not tuple (built from %s)" % (ti, name, pname, type(v).__name__, FORMS[form]), case)
     def snapshot(x):
         out = [repr(x), getattr(x, "byte_size", None)]
         for pn, _ins in br.params(obj.cls):
@@ -304,4 +346,4 @@ def one(rec, t, ti, name, obj, j, rng):
             case["xml"] = t.files
             rec.violation("serialization-not-repeatable", "tree %d %s (deserialized): %r vs %r" % (ti, name, d1, d2), case)
     if rec.evals % 300 == 1:
-        rec.sample({"tree": ti, "class": name, "value": obj.to_json(), "built_from": ["list", "tuple", "generator", "list-or-bytearray", "read-only-view"][form]})
+        rec.sample({"tree": ti, "class": name, "value": obj.to_json(), "built_from": FORMS[form]})
